@@ -143,9 +143,9 @@ func pcksLeaf(c *engine.Chooser, name string, k cfg) {
 		shares[i] = protos[i].AllocateShare(lvl)
 		protos[i].GenShare(In.SK[i], pkOut, ct, &shares[i])
 		// noise of the share: h0 + h1*s_out - c1*s_i
-		h := shares[i].Element
+		h := &rlwe.Element[ring.Poly]{Value: shares[i].Value, MetaData: &rlwe.MetaData{}}
 		h.IsNTT = ct.IsNTT
-		ph := uni.Phase(params, &h, skOut)
+		ph := uni.Phase(params, h, skOut)
 		c1s := mp.LinearResidual(params, params.RingQ().AtLevel(lvl).NewPoly(), ct.Value[1], ct.IsNTT, In.SK[i])
 		e := uni.SubCentered(ph, c1s, uni.QAtLevel(params, lvl))
 		if isZero(e) {
@@ -202,5 +202,3 @@ func pcksLeaf(c *engine.Chooser, name string, k cfg) {
 	}
 	c.Cover("functional", k.proto)
 }
-
-var _ = ring.Standard
